@@ -53,6 +53,25 @@ Definition drop_cstring (c : cstring) : outcome nat :=
 Definition clone_cstring (c : cstring) : outcome cstring :=
   match as_ref c with Ok s => Ok (from_str s) | _ => UB end.
 
+(* PartialEq / Hash (ReprCString and ReprCStr alike): `self.as_ref().eq(other.as_ref())`, `self.as_ref().hash(state)` —
+   both are functions of the scanned text only; the hashed key IS the text *)
+Definition eq_cstring (a b : cstring) : outcome bool :=
+  match as_ref a, as_ref b with
+  | Ok x, Ok y => Ok (if list_eq_dec Z.eq_dec x y then true else false)
+  | _, _ => UB
+  end.
+Definition hash_key (a : cstring) : outcome (list Z) := as_ref a.
+
+(* ReprCStr<'a>: a pointer to the first byte of memory owned by somebody else ([mem] = the bytes from that pointer to the
+   end of the foreign allocation); AsRef<str> scans from it: from_raw_parts(ptr, string_size(ptr) - 1) *)
+Definition borrowed_as_ref (mem : list Z) : outcome (list Z) :=
+  match string_size mem with
+  | Some n => Ok (firstn (n - 1) mem)
+  | None => UB
+  end.
+(* Borrow<ReprCStr> for ReprCString: the same pointer, viewed as the borrowed type *)
+Definition borrow_cstring (c : cstring) : list Z := bytes c.
+
 (* output row of one case: constructor kind k (0 = From<&str>, 1 = From<&[u8]>, 2 = ReprCStr from &CStr, 3 = From<String>) and input bytes:
    [ok; leaked; len; read-back bytes...] ; clone row ; eq/hash row *)
 Definition run_case (row : list Z) : list Z :=
